@@ -110,8 +110,23 @@ type chainOut struct {
 	swaggerJS []byte
 }
 
+// compile: every directory holding a source file is a local package of the bundle; pkg is the one compiled.
 func compile(pkg string, files map[string][]byte) (linker.Files, error) {
-	mf := &memFiles{pkgs: []string{pkg}, m: files}
+	pkgs := []string{pkg}
+	for fn := range files {
+		if i := strings.LastIndex(fn, "/"); i > 0 {
+			p := strings.ReplaceAll(fn[:i], "/", ".")
+			found := false
+			for _, q := range pkgs {
+				found = found || q == p
+			}
+			if !found {
+				pkgs = append(pkgs, p)
+			}
+		}
+	}
+	sort.Strings(pkgs[1:])
+	mf := &memFiles{pkgs: pkgs, m: files}
 	ps, err := protobuild.NewPackageSet(noDeps{}, mf)
 	if err != nil {
 		return nil, err
